@@ -14,6 +14,8 @@ receives the caller's settings; both generators read tol / rel under their own
 names.
 Round 5 (hunt): penalty_parser's renames are whole-name substitutions into
 names bound in generate_conditions' namespace (shared with C13.k).
+Round 6: the constraints side pairs '!=' partners in both directions (decision
+table shared with C13.a).
 NOT decided: values of the generated functions.
 """
 import ast
@@ -156,3 +158,10 @@ def condition_text_only_names_bound_functions(ctx):
     """penalty_parser renames mystic's spread( / mean( / variance( (/ product() into numpy's ptp( / average( / var( (/ prod(); generate_conditions executes the result: each target name is bound there (shared with C13.k)"""
     from .c13 import rewritten_names_are_bound
     rewritten_names_are_bound(ctx, 'mystic.symbolic:penalty_parser', 'mystic.symbolic:generate_conditions', 'penalty_parser')
+
+
+@rule('C14.g', min_instances=6)
+def the_constraints_side_knows_every_forbidden_value(ctx):
+    """"applying the generated constraints function drives the penalty of the same text to zero" also for texts that mix '!=' with '>=' / '<=': the inclusive bounds are nudged off a value a '!=' line forbids, and the list of forbidden values pairs each left-hand side with its partners in BOTH directions (x0 != x1 forbids x1 for x0 and x0 for x1); decision table of constraints_parser shared with C13.a"""
+    from .c13 import parser_decision_table
+    parser_decision_table(ctx)
